@@ -308,7 +308,7 @@ def build(x):
         return (f"let ghost __m = msg_data({v}); extend_from_message(&mut self.{q}, {v}); "
                 f"proof {{ assert(appended({g0[q]}, self.{q}@, __m)); assert(self.{o}@ == {g0[o]}); }}")
     iof.sub('V-SUBST', r'self\.(input_stash|feedback_content)\.extend\((\w+)\);', _ext, detail='`q.extend(msg)` -> stub extend_from_message (the batch appended in order)')
-    iof.sub('V-SUBST', r'self\.feedback_content\.extend\(rx_feedback\.recv\(\)\.unwrap\(\)\);', 'let __msg = match rx_feedback.recv() { Ok(m) => m, Err(_) => panic_no_return_val() }; let ghost __m = msg_data(__msg); extend_from_message(&mut self.feedback_content, __msg); proof { assert(appended(fc0, self.feedback_content@, __m)); assert(self.input_stash@ == is0); }', detail='`q.extend(rx.recv().unwrap())` -> `let m = match rx.recv() { Ok(m) => m, Err(_) => panic }; extend_from_message(q, m)` (definition of unwrap; a panic does not return)', must=True)
+    iof.sub('V-SUBST', r'self\.feedback_content\.extend\((\w+)\.recv\(\)\.unwrap\(\)\);', r'let __msg = match \1.recv() { Ok(m) => m, Err(_) => panic_no_return_val() }; let ghost __m = msg_data(__msg); extend_from_message(&mut self.feedback_content, __msg); proof { assert(appended(fc0, self.feedback_content@, __m)); assert(self.input_stash@ == is0); }', detail='`q.extend(rx.recv().unwrap())` -> `let m = match rx.recv() { Ok(m) => m, Err(_) => panic }; extend_from_message(q, m)` (definition of unwrap; a panic does not return)', must=True)
     iof.sub('V-ASSERT', r'panic!\("feedback_receiver disconnected!"\);', 'panic_no_return();', detail='panic!(..) -> panic_no_return() (ensures false: a panic does not return)', must=True)
     iof.add_spec(IOF_SPEC)
     iof.insert_at_body_start('''
@@ -318,11 +318,11 @@ def build(x):
     wu = x.method(F, 'Iterate', 'wait_update'); wu.name_result('r')
     wu.desugar_assert()
     wu.sub('V-SUBST', r'Err\(Disconnected\)', 'Err(RecvError::Disconnected)', detail='`use RecvError::Disconnected` variant import spelled out')
-    wu.sub('V-SUBST', r'self\.(input_stash|feedback_content|content)\.extend\((\w+)\);', r'extend_from_message(&mut self.\1, \2); /*@stashed*/', detail='`q.extend(msg)` -> stub extend_from_message (the batch appended in order)')
+    wu.sub('V-SUBST', r'self\.(input_stash|feedback_content|content)\.extend\((\w+)\);', r'let ghost __m = msg_data(\2); extend_from_message(&mut self.\1, \2); /*@stashed*/', detail='`q.extend(msg)` -> stub extend_from_message (the batch appended in order)')
     wu.sub('V-ASSERT', r'panic!\("state_receiver disconnected!"\);', 'panic_no_return_val()', detail='panic!(..) -> panic_no_return() (ensures false: a panic does not return)', must=True)
-    wu.sub('V-ASSERT', r'm => unreachable!\((?:[^()]|\((?:[^()]|\([^()]*\))*\))*\),', 'm => { panic_no_return(); }', detail='unreachable!() arm -> panic_no_return()', flags=re.S, must=True)
+    wu.sub('V-ASSERT', r'(\w+) => unreachable!\((?:[^()]|\((?:[^()]|\([^()]*\))*\))*\),', r'\1 => { panic_no_return(); }', detail='unreachable!() arm -> panic_no_return()', flags=re.S, must=True)
     wu.sub('V-SUBST', r'rust_panic\(\)', 'panic_no_return()', detail='assert!(state_msg.num_items() == 1): a violated assertion panics and does not return (R-PROTO: the leader sends one verdict per message)')
-    wu.sub('V-COMB', r'rx_state\.recv\(\)\.unwrap\(\)', 'match rx_state.recv() { Ok(m) => m, Err(_) => panic_no_return_val() }', detail='`rx.recv().unwrap()` -> `match rx.recv() { Ok(m) => m, Err(_) => panic }` (definition of unwrap; a panic does not return)', must=True)
+    wu.sub('V-COMB', r'(\w+)\.recv\(\)\.unwrap\(\)', r'match \1.recv() { Ok(m) => m, Err(_) => panic_no_return_val() }', detail='`rx.recv().unwrap()` -> `match rx.recv() { Ok(m) => m, Err(_) => panic }` (definition of unwrap; a panic does not return)', must=True)
     wu.add_spec(WAIT_SPEC)
     wu.text = '#[verifier::exec_allows_no_decreases_clause]\n' + wu.text
     wu.insert_at_body_start('\n        let ghost mut ga: Seq<StreamElement<Out>> = Seq::empty();\n        proof { assert(old(self).input_stash@ + ga =~= self.input_stash@); }')
@@ -331,7 +331,7 @@ def build(x):
                 self.same_but_stashes(old(self)), self.feedback_content == old(self).feedback_content, self.ready(),
                 self.input_stash@ == old(self).input_stash@ + ga,
 ''')
-    wu.insert_before(re.compile(r'extend_from_message\(&mut self\.\w+, msg\)'), 'let ghost __m = msg_data(msg); let ghost __s0 = self.input_stash@;\n                        ')
+    wu.insert_before(re.compile(r'let ghost __m = msg_data\(\w+\); extend_from_message'), 'let ghost __s0 = self.input_stash@;\n                        ')
     wu.insert_after('/*@stashed*/', ' proof { assert(old(self).input_stash@ + (ga + __m) =~= __s0 + __m); ga = ga + __m; }')
     wu.sub('V-SPEC', r'return \(should_continue, new_state\);', 'proof { assert(appended(old(self).input_stash@, self.input_stash@, ga)); }\n                    return (should_continue, new_state);', detail='proof block before the return', must=True)
     re_ = x.enum(FC, 'RecvError'); re_.text = '#[derive(Debug)]\n' + re_.text
